@@ -1,9 +1,9 @@
-\* quick exhaustive check: all 20 valid policies, all 28 commands, every answer of the 77-answer domain to AUTH, 15 answers to re-fetches, 3 commands per connection, HTTP requests (771 k distinct states, ~20 s)
+\* quick exhaustive check: all 20 valid policies, all 28 commands, 15 answers (MidAnswers) to AUTH and to re-fetches, waits 0/2/3 ticks, 3 commands per connection, HTTP requests (200 k distinct states, ~6 s idle); the full 77-answer domain is covered by NsqdPolicy_r_grants/_r_refetch and by NsqdPolicy_thorough
 SPECIFICATION Spec
 CONSTANTS
   Policies <- AllPolicies
   Cmds <- AllCmds
-  AnswersA <- FullAnswers
+  AnswersA <- MidAnswers
   AnswersR <- MidAnswers
   Waits = {0, 2, 3}
   MaxDepth = 3
@@ -11,5 +11,5 @@ CONSTANTS
   HttpReqs <- AllHttp
 VIEW View
 INVARIANTS TypeOK PropertyLevel RefetchIffExpired CodeStricter NeverOnExpiry
-PROPERTIES ClosedIsFinal PolicyFixed
+PROPERTIES PolicyFixed
 CHECK_DEADLOCK FALSE
